@@ -1,7 +1,8 @@
 // C03 - geometry navigation matches true point location along every ray and under every
 // documented interleaving of find-next-step / move / cross / set-direction.
 //
-// part "rays" (E4 lattice): geometry zoo (+ hex-array) x {start lattice, one oracle-placed start
+// part "rays" (E4 lattice): geometry zoo (+ hex-array, g6, g7 = x-/y-aligned cylinders and cones,
+//   ra* arrays, two of them with a non-zero grid origin and alternating widths) x {start lattice, one oracle-placed start
 //   inside every distinct volume chain (oracle/geo_samples.hh)} x direction set; every ray is
 //   traced with the real OrangeTrackView until it leaves the world; each segment, crossing, the
 //   position after move_to_boundary (= start + distance x direction, on a surface of some level)
@@ -664,6 +665,18 @@ static void part_rays(vf::Run& R)
         if (di >= 26 || (R.thorough() && di % 2 == 0))
             rep_dirs.push_back(di);
     int const minit = R.thorough() ? 25 : 15;  // initialise-only lattice (blocks of minit^2)
+    // dyadic starts (see below); points on a surface of the geometry at hand are skipped.
+    // NOT part of the default lattice (opt-in: VERIF_C03_DYADIC=1): on the unchanged tree rays
+    // exactly through edges / corners give violations of several kinds (RectArrayTracker ignores
+    // the zero distance to the tied plane after the crossing and stays in the wrong cell; a
+    // grazed edge is found by the limited but not by the unlimited search; a probe beyond a
+    // next boundary 2e-16 away) that have not been separated into findings and harness
+    // artefacts yet.  E.g. --case ray:rect-array:y=4:d=6, ray:universes:y=6:d=17,
+    // ray:ra1x2x6:y=2:d=5.
+    std::vector<D3> dyadic;
+    if (char const* e = getenv("VERIF_C03_DYADIC"); e && *e == '1')
+        dyadic = {{0.5, 0.25, 0.0},     {0.5, 0.5, 0.5},    {1.5, 1.5, 2.5},      {0.25, 0.375, 0.125},
+                  {-0.5, 0.5, -0.25},   {2.0, 1.0, 0.5},    {-1.25, -0.75, 0.75}, {0.75, -1.5, -1.25}};
     uint64_t outer = 0;
     for (size_t gi = 0; gi < zoo.size(); ++gi)
     {
@@ -692,18 +705,58 @@ static void part_rays(vf::Run& R)
             continue;
         }
         R.tag("geometry:" + zoo[gi].name);
+        // surface types of the judged geometries (evidence that e.g. cx / cyc / kx are present)
+        for (auto const& u : env->input.universes)
+            if (auto const* unit = std::get_if<celeritas::UnitInput>(&u))
+                for (auto const& vs : unit->surfaces)
+                    R.tag(std::string("surface-type:")
+                          + celeritas::to_cstring(std::visit(
+                              [](auto const& sf) { return std::decay_t<decltype(sf)>::surface_type(); },
+                              vs)));
         double scale = env->scale();
         double tol = std::max(env->oracle->tol_abs(), env->oracle->tol_rel() * scale);
         Ctx c{R, *env, scale, 10 * tol, 100 * tol, tol};
         auto reps = chain_reps(*env, c.eps_amb, scale, R.thorough() ? 25 : 17);
         int const nlat = n * n * n;
         int const total = nlat + int(reps.size()) + minit;
-        for (int ip = 0; ip < total; ++ip, ++outer)
+        for (int ip = 0; ip < total + int(dyadic.size()); ++ip, ++outer)
         {
             if (!R.mine(outer))
                 continue;
             if (R.expired())
                 return;
+            if (ip >= total)
+            {
+                // DYADIC start (absolute coordinates, multiples of 1/8) x the 12 face + 8 space
+                // diagonals, whose components are bit-equal: the distances to axis-aligned planes
+                // at dyadic positions TIE exactly, the ray passes through edges and corners.
+                // The oracle gives no claim at the tie point itself; the segments before and
+                // after it are judged as for every other ray.
+                D3 p = dyadic[ip - total];
+                OLocation l0 = c.locate(p);
+                if (l0.status != OLocation::ok || l0.outside)
+                {
+                    R.count(l0.status == OLocation::ok ? "starts_outside_world" : "starts_ambiguous");
+                    continue;
+                }
+                R.tag("ray-start:dyadic");
+                for (size_t di = 0; di < 26; ++di)
+                {
+                    int nz = (dirs[di][0] != 0) + (dirs[di][1] != 0) + (dirs[di][2] != 0);
+                    if (nz < 2)
+                        continue;
+                    std::string cid = fmt("ray:%s:y=%d:d=%zu", zoo[gi].name.c_str(), ip - total, di);
+                    if (!R.want(cid))
+                        continue;
+                    R.begin_case(cid, 20);
+                    trace_ray(c, p, dirs[di], cid);
+                    R.count("evaluations");
+                    R.count("rays");
+                    R.count("rays_dyadic_diagonal");
+                    R.end_case();
+                }
+                continue;
+            }
             if (ip >= nlat + int(reps.size()))
             {
                 // initialise-only block: x-slab `bx` of a minit^3 lattice; initialise and compare
@@ -1285,7 +1338,10 @@ static void part_ops(vf::Run& R)
     // geometries with nested (rotated / reflected / arrayed) universes and non-convex volumes
     std::vector<std::string> names = {"g3.0", "g3.1", "g3.2", "g3.3", "g3.4", "g4", "g5", "g1",
                                       "universes", "rect-array", "nested-rect-arrays",
-                                      "inputbuilder-hierarchy", "inputbuilder-universes"};
+                                      "inputbuilder-hierarchy", "inputbuilder-universes",
+                                      // A&(B|C) logic; x-/y-aligned cylinders and cones; array
+                                      // with a non-zero grid origin and alternating cell widths
+                                      "g6", "g7", "ra2x5x1"};
     auto zoo = vf::zoo_entries(true, true);
     // Direction alphabet for set_dir: near-axis and near-diagonal directions, tilted by a few
     // 1e-2 so that none is EXACTLY tangent to an axis-aligned (or 30/90-degree rotated) surface
